@@ -282,6 +282,17 @@ def main():
     if not os.path.exists(OUT) or open(OUT).read() != txt:
         open(OUT, 'w').write(txt)
     print('gen_fonts: %d fonts, %d mappings, replacement index %d' % (len(fonts), len(maps), repl))
+    if '--golden' in sys.argv:
+        # deliberate refresh of the COMMITTED bitmap reference (never done by ./check or setup.sh)
+        G = ['(* COMMITTED reference: FNV-1a digest of the glyph bitmap (fonts/raw file) of every built-in font.',
+             '   Gen/FontTable.v carries the digests of the tree under test (regenerated on every run); Proofs/Fontbuiltin.v proves',
+             '   they are equal, so a changed, swapped or corrupted bitmap file breaks a proof.',
+             '   Regenerate ONLY after a deliberate font change: python3 translate/gen_fonts.py --golden *)',
+             'From EG Require Import Base.Prelude.', '', 'Definition golden_bitmaps : list (list Z * Z) := [']
+        G.append(';\n'.join('  (* %s *) (%s, %d)' % (w, name_codes(w), dig) for w, _, _, _, dig in fonts))
+        G.append('].')
+        open(os.path.join(HERE, '..', 'coq', 'Proofs', 'FontGolden.v'), 'w').write('\n'.join(G) + '\n')
+        print('gen_fonts: wrote coq/Proofs/FontGolden.v')
 
 
 main()
